@@ -130,7 +130,7 @@ if os.environ.get('MUT_ALL') is None and os.path.exists(FILTER):
 if os.environ.get('MUT_FILES'):
     keepf = set(os.environ['MUT_FILES'].split(','))
     muts = [m for m in muts if m[0] in keepf]
-muts = muts[:LIMIT]
+muts = muts[int(os.environ.get('MUT_SKIP', '0')):][:LIMIT]
 print(len(muts), 'mutants', file=sys.stderr)
 q = queue.Queue()
 for x in enumerate(muts):
